@@ -6,9 +6,12 @@
 (*   sim   : random wide cases built item by item (tlc -simulate); SimDump prints finished ones        *)
 EXTENDS P2Bin_MC, Json
 
+\* mix = the selected records differ in granularity and the weaker statement of P2Bin.tla Part 2b decides the case
 CaseOut(cc) == LET r == Run({}, cc)
                    d == Definite(cc)
-               IN [c |-> cc, exp |-> r, def |-> d, allowed |-> d => Allowed(cc, r)]
+                   dm == DefiniteMixed(cc)
+               IN [c |-> cc, exp |-> r, def |-> d, mix |-> dm,
+                   allowed |-> (d => Allowed(cc, r)) /\ (dm => AllowedMixed(cc, r))]
 
 \* ---- cover ----------------------------------------------------------------------------------------
 CoverInit == c \in CaseSpace /\ pc = "gen" /\ idx = 1 /\ m = M0(c.o) /\ s = Blank /\ out = NoOut
@@ -47,11 +50,14 @@ SimCS == {<<81, 1>>, <<97, 1>>, <<81, 2>>, <<112, 1>>}
 \* (default 1), 112 (2), 59 AVR and 26, 29 PDK (2 in CODE, 1 elsewhere), 118 (4) -- and long-header DATA records of the
 \* AVR / PDK families, mixed in any order with the long-header shapes above, in any of the input files
 SimShortCpus == {81, 97, 112, 59, 26, 29, 118}
-SimForms(G) == {sh \in [k : {"D"}, start : {0, 2, 5, 8, 16, 17}, units : {1, 2, 4}, gran : {G},
-                         cs : {<<f, 1, TRUE>> : f \in SimShortCpus}] : CFB!ImplicitGran(sh.cs[1], SegCode) = G}
+\* MIXED MODE (G = 0): the CODE segment holds records of ANY granularity -- long headers of 1, 2, 4 and short headers of
+\* every family above -- so that the selected records of a case differ in granularity (DefiniteMixed) with every option
+\* the simulation draws: windows inside / at the edge of records of either unit, lanes, -S, -e, -s, -l, -f, (offset) files.
+SimForms(G) == {sh \in [k : {"D"}, start : {0, 2, 5, 8, 16, 17}, units : {1, 2, 4}, gran : IF G = 0 THEN {1, 2, 4} ELSE {G},
+                         cs : {<<f, 1, TRUE>> : f \in SimShortCpus}] : CFB!ImplicitGran(sh.cs[1], SegCode) = sh.gran}
                \cup [k : {"D"}, start : {0, 2, 5, 8, 16, 17}, units : {1, 2, 4}, gran : {1}, cs : {<<59, 2>>, <<29, 2>>}]
 SimShapes(G) == {sh \in [k : {"D"}, start : SimStarts, units : {0, 1, 2, 4, 8}, gran : {1, 2, 4}, cs : SimCS] :
-                    sh.cs[2] = 1 => sh.gran = G}
+                    (sh.cs[2] = 1 /\ G # 0) => sh.gran = G}
                 \cup [k : {"E"}, addr : {4660, 74565}]
                 \cup SimForms(G)
 \* lower bounds of every phase of the lane period (1, 2, 3 mod 4) with upper bounds that make whole periods
@@ -65,9 +71,9 @@ SimNext ==
   /\ LET nf == Len(c.files) IN
      CASE idx = 0 ->
             /\ UNCHANGED pc
-            /\ \E G \in {1, 2, 4}, f \in SimFOps, sg \in {1, 2}, w \in 1..3 :
-                  \* w only weights the choice: no filter / CODE twice as likely
-                  /\ m' = [m EXCEPT !.maxgran = G]                 \* m.maxgran carries G during generation
+            /\ \E G \in {1, 2, 4}, f \in SimFOps, sg \in {1, 2}, w \in 1..3, mx \in 1..3 :
+                  \* w only weights the choice: no filter / CODE twice as likely; mx = 3: mixed mode (a third of the cases)
+                  /\ m' = [m EXCEPT !.maxgran = IF mx = 3 THEN 0 ELSE G]   \* m.maxgran carries G during generation
                   /\ c' = [c EXCEPT !.o.fops = IF w = 1 THEN f ELSE <<>>, !.o.seg = IF w = 3 THEN sg ELSE 1]
        [] idx \in 1..SimRecs ->
             /\ UNCHANGED <<pc, m>>
